@@ -167,6 +167,16 @@ def build_corpus(tier, rng):
         if j % 3 == 0 and it.variants and it.repr is not None:        # (E0732: explicit discriminants next to payloads need an integer repr)
             it.variants[len(it.variants) // 2].discr = 20 + j
         add(it, "foreign-options")
+    # the enum comes out of a macro_rules! expansion: the integer type of #[repr] is a `ty` fragment, discriminants that depend on its width
+    for rp, exprs in (("u8", [("!0x0F", 0xF0), ("1", 1), (None, 2)]), ("i16", [("!1", -2), (None, -1), ("5", 5)]), ("u16", [("!0", 65535), ("0", 0), (None, 1)]), ("i8", [(None, 0), ("-3", -3)])):
+        for idents in (True, "idents"):
+            vs = []
+            for q, (ex, val) in enumerate(exprs):
+                v = mk_variant(NAMES[q], "unit", False, val if ex is not None else None, ex)
+                vs.append(v)
+            it = Item("E", vs, repr=rp)
+            it.via_macro = idents
+            add(it, "via-macro")
     # no variant carries data, but the enum has CONST parameters: from_repr is still a const fn
     for rp in (None, "u8", "i32"):
         add(Item("E", [mk_variant("Empty", "unit", False), mk_variant("Taken", "unit", False, 4), mk_variant("Off", "unit", True), mk_variant("Locked", "unit", False)],
